@@ -39,6 +39,7 @@ func init() {
 			ruleRegexpSuffixComparedBytewise(c, "R15")
 			ruleExhaustedPathPrefersTheNode(c, "R16")
 			ruleRegexpSplitOnRuneBoundary(c, "R17")
+			ruleInterceptorShorthands(c, "R18")
 		},
 	})
 }
